@@ -11,6 +11,7 @@ import (
 	"fmt"
 	"io"
 	"net"
+	"sync/atomic"
 	"time"
 
 	"github.com/datastax/go-cassandra-native-protocol/client"
@@ -20,7 +21,23 @@ import (
 	"github.com/datastax/go-cassandra-native-protocol/segment"
 )
 
+// Bounded waits. Nothing in a session depends on timing for its verdict: a wait either ends because the expected
+// bytes / frames arrived, or it expires and the session reports what did not arrive. The margin is generous (loaded
+// machines); once ANY session of the run has failed the run is going to report a violation anyway, and the remaining
+// sessions only add detail: they then wait for a few seconds only, which bounds the wall time of a failing run.
 const ioTimeout = 20 * time.Second
+const shortTimeout = 4 * time.Second
+
+var impatient int32
+
+func patience() time.Duration {
+	if atomic.LoadInt32(&impatient) != 0 {
+		return shortTimeout
+	}
+	return ioTimeout
+}
+
+func losePatience() { atomic.StoreInt32(&impatient, 1) }
 
 type rawPeer struct {
 	conn     net.Conn
@@ -40,7 +57,7 @@ func newRawPeer(conn net.Conn, v primitive.ProtocolVersion, comp primitive.Compr
 }
 
 func (p *rawPeer) write(b []byte) error {
-	_ = p.conn.SetWriteDeadline(time.Now().Add(ioTimeout))
+	_ = p.conn.SetWriteDeadline(time.Now().Add(patience()))
 	if p.chunk <= 0 {
 		_, err := p.conn.Write(b)
 		return err
@@ -68,7 +85,7 @@ func (p *rawPeer) writeFrame(f *frame.Frame) error {
 }
 
 func (p *rawPeer) readFrame() (*frame.Frame, error) {
-	_ = p.conn.SetReadDeadline(time.Now().Add(ioTimeout))
+	_ = p.conn.SetReadDeadline(time.Now().Add(patience()))
 	return p.frames.DecodeFrame(p.rd)
 }
 
@@ -103,7 +120,7 @@ func (p *rawPeer) writeSegments(ws []wireSeg) error {
 }
 
 func (p *rawPeer) readSegment() (wireSeg, error) {
-	_ = p.conn.SetReadDeadline(time.Now().Add(ioTimeout))
+	_ = p.conn.SetReadDeadline(time.Now().Add(patience()))
 	seg, err := p.segments.DecodeSegment(p.rd)
 	if err != nil {
 		return wireSeg{}, err
